@@ -47,6 +47,8 @@ type TypeShape struct {
 	RetNil       bool // formatter has a return nil
 	RetCause     bool // formatter has a return of the cause field
 	RetOther     bool
+	RetInDetail  bool         // some return of the formatter sits inside the p.Detail() region
+	MsgTypeWhy   string       // ByMessageType: problem with the guards on the message type
 	Inherited    *types.Named // methods promoted from this embedded error type
 	ErrFields    map[*types.Var]bool // receiver fields read by Error()
 }
@@ -340,6 +342,25 @@ func classifyError(p *load.Program, et *ErrType, sh *TypeShape) {
 			}
 			if nOwn == 1 && len(fields) == 3 {
 				sh.ErrShape, sh.ErrField, sh.ErrSep = ShByMessageType, textF, sep
+				// the cause-only and prefix+cause returns are taken only when the message
+				// type is NOT FullMessage: a comparison of the message-type field must dominate them
+				for _, r := range rets {
+					v := r.Results[0]
+					if textField(fn, v) != nil {
+						continue // the own-text return
+					}
+					guarded := false
+					for _, l := range dominatingLits(r.Block()) {
+						if bo, ok := l.V.(*ssa.BinOp); ok && bo.Op == token.EQL && l.Neg {
+							if pth := recvFieldPath(fn, bo.X); len(pth) == 1 && pth[0] != textF && pth[0] != sh.CauseField {
+								guarded = true
+							}
+						}
+					}
+					if !guarded {
+						sh.MsgTypeWhy = "a return that uses the cause's text is reachable without first excluding the full-message type: a full message that happens to be empty (or any full message) is rendered with its cause appended/substituted"
+					}
+				}
 				return
 			}
 		}
@@ -539,6 +560,9 @@ func classifyFormatter(p *load.Program, et *ErrType, sh *TypeShape) {
 			case *ssa.Return:
 				if f != fn {
 					return
+				}
+				if inDetail(x.Block()) {
+					sh.RetInDetail = true
 				}
 				v := x.Results[0]
 				switch {
